@@ -20,11 +20,42 @@ def nkey(n: Any) -> list[str]:
 	return [n.module_path, n.full_path, n.classification]
 
 
+_DECLARED: dict[type, list[str] | None] = {}
+
+
+def declared_expandables(cls: type) -> list[str] | None:
+	"""The expandable properties as declared through the embed metadata, base classes first — computed without Node.prop_keys' class-level cache."""
+	if cls in _DECLARED:
+		return _DECLARED[cls]
+	try:
+		from rogw.tranp.syntax.node.embed import EmbedKeys, Meta
+		from rogw.tranp.syntax.node.node import Node
+		if cls.__name__ == 'Proxy':
+			cls_ = cls.__mro__[1]
+		else:
+			cls_ = cls
+		keys: list[str] = []
+		for ctor in reversed([c for c in cls_.__mro__ if isinstance(c, type) and issubclass(c, Node) and c is not Node]):
+			meta = Meta.dig_for_method(Node, ctor, EmbedKeys.Expandable, value_type=bool)
+			keys += [name for name, _ in meta.items()]
+		_DECLARED[cls] = keys
+	except Exception:
+		_DECLARED[cls] = None
+	return _DECLARED[cls]
+
+
+def answer_tokens(n: Any) -> str:
+	try:
+		return str(n.tokens)
+	except Exception as e:
+		return f'!{type(e).__name__}'
+
+
 class Monitor:
 	"""Shadow stack per exec frame: an independent re-statement of 'the handler gets the results of the nodes its properties yield'."""
 
 	def __init__(self) -> None:
-		self.frames: list[list[tuple[list[str], Any]]] = []
+		self.frames: list[list[tuple[list[str], Any, Any]]] = []
 		self.diffs: list[dict[str, Any]] = []
 		self.calls = 0
 		self.max_depth = 0
@@ -38,7 +69,7 @@ class Monitor:
 		self.frames.append([])
 		self.max_depth = max(self.max_depth, len(self.frames))
 
-	def pop_frame(self) -> list[tuple[list[str], Any]]:
+	def pop_frame(self) -> list[tuple[list[str], Any, Any]]:
 		return self.frames.pop()
 
 	def check_event(self, node: Any, event: dict[str, Any]) -> None:
@@ -46,6 +77,10 @@ class Monitor:
 		self.calls += 1
 		frame = self.frames[-1]
 		keys = list(node.prop_keys())
+		declared = declared_expandables(type(node))
+		if declared is not None and declared != keys:
+			self.diffs.append({'class': 'prop-keys-differ-from-declared-expandables', 'detail': {'node': nkey(node), 'prop_keys': keys, 'declared_in_class_hierarchy': declared}})
+			return
 		got_keys = [k for k in event if k != 'node']
 		if sorted(got_keys) != sorted(keys):
 			self.diffs.append({'class': 'event-keys-differ-from-expandable-properties', 'detail': {'node': nkey(node), 'event': got_keys, 'properties': keys}})
@@ -69,18 +104,24 @@ class Monitor:
 				return
 			popped = [frame.pop() for _ in want_nodes]
 			popped.reverse()
-			for child, (ck, cres), v in zip(want_nodes, popped, vals):
-				if child.classification == 'empty' or type(child).__name__ == 'Proxy':
+			for child, (ck, cres, cnode), v in zip(want_nodes, popped, vals):
+				proxy = type(child).__name__ == 'Proxy'
+				if child.classification == 'empty' or proxy:
 					self.stat('Empty/proxy child')
 				if ck != nkey(child):
 					self.diffs.append({'class': 'result-of-another-node-delivered', 'detail': {'node': nkey(node), 'property': key, 'child': nkey(child), 'result_came_from': ck}})
+					return
+				# same address is not enough: the result must have been computed for THIS node object (a rebuilt module has new nodes at the old paths);
+				# virtual proxies are re-created on every property access and are compared by their tokens instead
+				if (not proxy and cnode is not child) or (proxy and answer_tokens(cnode) != answer_tokens(child)):
+					self.diffs.append({'class': 'result-of-a-stale-node-delivered', 'detail': {'node': nkey(node), 'property': key, 'child': nkey(child), 'child_tokens': answer_tokens(child)[:80], 'processed_tokens': answer_tokens(cnode)[:80]}})
 					return
 				if v is not cres:
 					self.diffs.append({'class': 'child-result-altered', 'detail': {'node': nkey(node), 'property': key, 'child': nkey(child), 'received': str(v)[:80], 'computed': str(cres)[:80]}})
 					return
 
 	def record(self, node: Any, result: Any) -> None:
-		self.frames[-1].append((nkey(node), result))
+		self.frames[-1].append((nkey(node), result, node))
 
 
 def wrap_procedure(proc: Any, mon: Monitor, handlers: dict[str, Any], tag: str) -> None:
@@ -116,7 +157,7 @@ def wrap_procedure(proc: Any, mon: Monitor, handlers: dict[str, Any], tag: str) 
 			frame = mon.pop_frame()
 			if not ok:
 				mon.stat(f'exec failed ({tag})')
-		if len(frame) != 1 or frame[0][0] != nkey(root) or frame[0][1] is not result:
+		if len(frame) != 1 or frame[0][0] != nkey(root) or frame[0][1] is not result or frame[0][2] is not root:
 			mon.diffs.append({'class': 'exec-does-not-end-with-exactly-the-root-result', 'detail': {'root': nkey(root), 'procedure': tag, 'left_on_shadow_stack': [f[0] for f in frame][:4]}})
 		return result
 	proc.exec = exec_
@@ -209,6 +250,64 @@ def identity_task(case: dict[str, Any]):
 
 
 # ---------------------------------------------------------------------------------------------
+# rebuild mode: one long-lived Procedure, the module under it is rebuilt from other text between runs
+
+
+def rebuild_task(case: dict[str, Any]):
+	def task(seams: Any) -> dict[str, Any]:
+		from rogw.tranp.errors import Errors
+		from rogw.tranp.implements.cpp.transpiler.py2cpp import Py2Cpp
+		from rogw.tranp.semantics.procedure import Procedure
+		from rogw.tranp.semantics.reflections import ProceduralResolver, Reflections
+		from tranpsim.session import _make_interactive, annotate_factories
+		annotate_factories()
+		app = tasks.make_app(case['modules'], force=True, cache_enabled=None)
+		inter = app.run(_make_interactive)
+		mon = Monitor()
+		proc: Any = Procedure()
+		events: list[Any] = []
+
+		def on_fallback(**event: Any) -> Any:
+			events.append([event['node'].full_path, event['node'].classification])
+			return event['node']
+		wrap_procedure(proc, mon, {'on_fallback': on_fallback}, 'identity')
+		mon_t, mon_r = Monitor(), Monitor()
+		tr = inter.transpiler
+		wrap_procedure(getattr(tr, '_Py2Cpp__procedure'), mon_t, {key: getattr(tr, key) for key in Py2Cpp.__dict__ if key.startswith('on_')}, 'py2cpp')
+		resolver = getattr(app.resolve(Reflections), '_Reflections__resolver')
+		wrap_procedure(resolver.procedure, mon_r, {key: getattr(resolver, key) for key in ProceduralResolver.__dict__ if key.startswith('on_')}, 'reflections')
+		outcomes = []
+		for text in case['texts']:
+			try:
+				main = inter.rebuild_module(text)
+			except Errors.Error as e:
+				outcomes.append(['rebuild', type(e).__name__])
+				continue
+			root = main.entrypoint
+			try:
+				res = proc.exec(root)
+				outcomes.append(['identity', 'ok' if res is root else 'other-root'])
+				if res is not root:
+					mon.diffs.append({'class': 'exec-returned-another-node', 'detail': {'root': nkey(root)}})
+			except Errors.Error as e:
+				outcomes.append(['identity', type(e).__name__])
+				mon.diffs.append({'class': 'identity-walk-fails-after-rebuild', 'detail': {'error': type(e).__name__, 'msg': str(e)[:160]}})
+			try:
+				out = tr.transpile(root)
+				outcomes.append(['transpile', 'ok', digest(out)])
+			except Errors.Error as e:
+				outcomes.append(['transpile', type(e).__name__])
+			mon.stat('module rebuilt under a long-lived procedure')
+		diffs = mon.diffs[:2] + [{**d, 'detail': {**d['detail'], 'procedure': 'py2cpp'}} for d in mon_t.diffs[:2]] + [{**d, 'detail': {**d['detail'], 'procedure': 'reflections'}} for d in mon_r.diffs[:2]]
+		stats = dict(mon.stats)
+		for m2 in (mon_t, mon_r):
+			for k, v in m2.stats.items():
+				stats[k] = stats.get(k, 0) + v
+		return {'diffs': diffs, 'stats': stats, 'calls': mon.calls + mon_t.calls + mon_r.calls, 'max_depth': max(mon.max_depth, mon_t.max_depth, mon_r.max_depth), 'outcome': outcomes, 'log': digest(outcomes), 'n_flat': 0, 'classes': sorted({e[1] for e in events})}
+	return task
+
+
+# ---------------------------------------------------------------------------------------------
 # monitor mode: real Py2Cpp + Reflections procedures
 
 
@@ -260,7 +359,7 @@ class C09Runner:
 			for rel, (content, mtime) in seed.items():
 				proj.sc.write(rel, content, mtime)
 			spec = {**case, 'modules': pool['modules']}
-			task = identity_task(spec) if case['mode'] == 'identity' else monitor_task(spec)
+			task = {'identity': identity_task, 'monitor': monitor_task, 'rebuild': rebuild_task}[case['mode']](spec)
 			rec = sim_process(proj.sc.root, task, timeout=300)
 			if rec['status'] == 'timeout':
 				return self.result([{'class': 'walk-does-not-terminate', 'detail': {}, 'known': None, 'sig': 'timeout'}], {})
@@ -281,6 +380,8 @@ class C09Runner:
 		if case['mode'] == 'identity':
 			for s in case.get('schedule', []):
 				distinct.append(f"{case['module']}:{s['root'] % max(1, res.get('n_flat', 1))}:{s.get('max_depth')}:{s.get('raise_after') is not None}")
+		elif case['mode'] == 'rebuild':
+			distinct = [f"rebuild:{digest(a)}>{digest(b)}" for a, b in zip(case['texts'], case['texts'][1:])]
 		else:
 			distinct = [f"monitor:{m}:{digest(case.get('state'))}" for m in case.get('targets', [])]
 		return {'violations': vs, 'counters': counters, 'distinct': distinct, 'states': [f"depth{res.get('max_depth', 0)}"] + list(res.get('classes', [])), 'log': res.get('log', ''), 'processes': 1, 'sim_time_s': 0.0}
@@ -314,6 +415,13 @@ class C09(Engine):
 		for which in (0, 1, 3):
 			p = pools.fixed_pool(which)
 			cases.append({'mode': 'monitor', 'pool': p, 'targets': list(p['modules'])})
+		from tranpsim.c07 import base_texts
+		base = base_texts(pool)
+		same_shape = ['a = 1 + 2\nprint(a)', 'b = 3 * 4\nprint(b)', 'c = 5\nd = c\nprint(c, d)', 'b = 3 * 4\nprint(b)']
+		cases.append({'mode': 'rebuild', 'pool': pool, 'texts': same_shape})
+		cases.append({'mode': 'rebuild', 'pool': pool, 'texts': ['def calc(a: int) -> int:\n\treturn a', 'def calc(b: str) -> str:\n\treturn b', 'def calc(a: int) -> int:\n\treturn a']})
+		cases.append({'mode': 'rebuild', 'pool': pool, 'texts': base[:4] + base[:2]})
+		cases.append({'mode': 'rebuild', 'pool': pool, 'texts': [base[-1], base[-2], base[-1], base[1]]})
 		return cases
 
 	def generate(self, rng: random.Random, index: int) -> dict[str, Any]:
@@ -325,6 +433,11 @@ class C09(Engine):
 		if rng.random() < 0.25:
 			targets = rng.sample(pool['modules'], rng.randint(1, len(pool['modules'])))
 			return {'mode': 'monitor', 'pool': pool, 'state': state, 'targets': targets}
+		if rng.random() < 0.25:
+			from tranpsim.c07 import base_texts
+			from tranpsim.corpus import texts as corpus
+			base = base_texts(pool) + ['a = 1 + 2\nprint(a)', 'b = 3 * 4\nprint(b)', 'x = [1, 2]\ny = x', 'x = [3]\ny = x'] + corpus.ILL_TYPED[:6]
+			return {'mode': 'rebuild', 'pool': pool, 'state': state, 'texts': [rng.choice(base) for _ in range(rng.randint(2, 7))]}
 		module = rng.choice(pool['modules']) if rng.random() < 0.8 else rng.choice(LIB_MODULES)
 		sched = []
 		ats = sorted(rng.sample(range(0, 400), rng.randint(1, 6)))
